@@ -22,6 +22,7 @@ partial def tree? : Sexp → Option Tree
       | Sexp.list [Sexp.atom key, t] => (tree? t).map fun t' => (key, t')
       | _ => none
     pure (.lazy (← asNat? sd) kids)
+  | .list [.atom "nts", .atom d, sd] => do pure (.ntstack d (← asNat? sd))
   | .list (.atom "tc" :: .atom cls :: .atom fields :: kids) => do
     let kids ← kids.mapM fun k => match k with
       | Sexp.list [Sexp.atom key, t] => (tree? t).map fun t' => (key, t')
@@ -34,6 +35,7 @@ partial def treeSx : Tree → Sexp
   | .nontensor d b => .list [.atom "nt", .atom d, ofNats b]
   | .node b dev kids => .list (.atom "n" :: ofNats b :: .atom dev :: kids.map fun (k, t) => .list [.atom k, treeSx t])
   | .lazy sd kids => .list (.atom "lz" :: ofNat sd :: kids.map fun (k, t) => .list [.atom k, treeSx t])
+  | .ntstack d sd => .list [.atom "nts", .atom d, ofNat sd]
   | .tclass cls fields kids => .list (.atom "tc" :: .atom cls :: .atom fields :: kids.map fun (k, t) => .list [.atom k, treeSx t])
 
 def entrySx : String × MetaEntry → Sexp
